@@ -22,7 +22,7 @@ ID = 'C13'
 NEEDS_C = True
 LEVEL = 'exploration'
 RULE = ('tapes: (a) bin2tap-made TAP/TZX tapes of random binaries, (b) a bin2tap-made prefix carrying a synthesised loader built around one of the 53 '
-        'recognised tape-sampling loops (50 single-loop "edge" loaders incl. all counter/EAR register variants and 3 polarity-sensitive "cycle" pairs) x '
+        'recognised tape-sampling loops (47 single-loop "edge" loaders incl. all counter/EAR register variants, and 3 "cycle" loaders made of the 6 polarity-sensitive loops) x '
         'wildcard fill x DEC A delay-loop form (JR / JP / unrecognised) x 1-2 turbo blocks (TZX 0x11 or 0x12+0x13+0x14) x pauses x payload x '
         'polarity x first-edge x {--start given, not given}; each tape is run under accelerator in {none, auto, list, its own name, an unrelated name} x '
         'accelerate-dec-a 0..3 x pause 0/1 x python 0/1 (sampled for the Python simulator) x fast-load 0/1 x cmio 0/1. A case is one configuration run compared '
@@ -34,7 +34,7 @@ ASSUMPTIONS = ['"a tape that loads" = at least one configuration of the matrix e
                'are the evidence that the fast-forward arithmetic was executed for that shape',
                'a loader using IN A,(C) (activision shape) needs -c in-flags=4; that option is treated as part of the tape',
                'when --start is not given the simulation stops where tap2sna decides; PC and SP are then compared as they are']
-MIN_NONTRIVIAL = {'quick': 400, 'thorough': 8000}
+MIN_NONTRIVIAL = {'quick': 1500, 'thorough': 8000}
 
 REG_NAMES = ['A', 'F', 'B', 'C', 'D', 'E', 'H', 'L', 'IXh', 'IXl', 'IYh', 'IYl', 'SP', '13', 'I', 'R', "A'", "F'", "B'", "C'", "D'", "E'", "H'", "L'",
              'PC', 'T', 'IFF', 'IM', 'HALT', 'MEMPTR']
@@ -48,12 +48,11 @@ F_RETZ = 'C13-alkatraz-accelerator-skips-ret-z-taken-after-counter-overflow'
 ALKATRAZ_WILD = ('alkatraz', 'alkatraz-05', 'alkatraz-09', 'alkatraz-0a', 'alkatraz-0b')
 
 def plan(tier, seed):
-    n = 16
-    q = tier == 'quick'
-    specs = [{'shard': i, 'of': n, 'timeout': 600 if q else 7200, 'budget_s': 38 if q else 1000} for i in range(n)]
-    if not q:
-        # sanitizer tripwire under the same workload (C configurations only)
-        specs.append({'shard': 0, 'of': 1, 'flavour': 'asan', 'asan': True, 'timeout': 7200, 'budget_s': 600})
+    if tier == 'quick':
+        return [{'shard': i, 'of': 16, 'timeout': 600, 'budget_s': 30} for i in range(16)]
+    # thorough: 15 plain shards plus, at the same time, one sanitizer shard (C configurations only) under the same workload
+    specs = [{'shard': i, 'of': 15, 'timeout': 7200, 'budget_s': 1000} for i in range(15)]
+    specs.append({'shard': 0, 'of': 1, 'flavour': 'asan', 'asan': True, 'timeout': 7200, 'budget_s': 900})
     return specs
 
 # ------------------------------------------------------------------ hooks (installed from outside, removed afterwards)
@@ -174,7 +173,7 @@ def make_custom(rng, loader, tier, force=None):
     extra = ['-c', 'in-flags=4'] if loader == 'activision' else []
     return {'kind': 'custom', 'loader': loader, 'skeleton': kind, 'accs': list(accs), 'named': ','.join(accs), 'tape': tzx, 'ext': 'tzx',
             'polarity': polarity, 'first_edge': first_edge, 'start': prog['fin'] if use_start else None, 'regions': regions, 'extra': extra,
-            'timeout': 90, 'desc': {'loader': loader, 'fill': fill, 'delay': delay_kind, 'blocks': [len(b['data']) for b in blocks], 'container': container,
+            'timeout': (g.tzx_duration(tzx) + abs(first_edge)) // 3500000 + 5, 'desc': {'loader': loader, 'fill': fill, 'delay': delay_kind, 'blocks': [len(b['data']) for b in blocks], 'container': container,
                                     'polarity': polarity, 'first_edge': first_edge, 'swap': swap, 'init_ctr': init_ctr, 'ending': ending, 'start': use_start, 'org': org,
                                     'prefix_pause': prefix_pause, 'block_pauses': block_pauses, 'jitter': jitter}}
 
@@ -192,7 +191,7 @@ def make_bin2tap(rng, tier, force=None):
         clear = org - 1
         opts += ['-c', str(clear)]
     elif rng.random() < 0.3:
-        opts += ['-p', str(rng.choice((org + len(data) + 40, 0x5D00 + 200)))]
+        opts += ['-p', str(org + len(data) + 40)]
     r = harness.run_tool('bin2tap', opts + ['b.bin', 'b.tap'])
     if not r.ok:
         return {'error': 'bin2tap failed: ' + r.describe()}
@@ -211,7 +210,7 @@ def make_bin2tap(rng, tier, force=None):
     use_start = force.get('use_start', use_start)
     return {'kind': 'bin2tap', 'loader': 'rom-routine', 'skeleton': 'rom', 'accs': ['rom'], 'named': 'rom', 'tape': tape, 'ext': 'tzx' if as_tzx else 'tap',
             'polarity': polarity, 'first_edge': first_edge, 'start': org if use_start else None, 'regions': [(org, data)], 'extra': [],
-            'timeout': 60 + len(data) // 20,
+            'timeout': ((g.tzx_duration(tape) if as_tzx else g.tap_duration(tape)) + abs(first_edge)) // 3500000 + 5,
             'desc': {'loader': 'bin2tap', 'length': len(data), 'org': org, 'clear': clear, 'container': 'tzx' if as_tzx else 'tap', 'polarity': polarity,
                      'first_edge': first_edge, 'start': use_start, 'opts': opts}}
 
@@ -243,13 +242,15 @@ def run_cfg(hooks, tape, c, fmt):
     hooks.tracer = None
     argv = cfg_argv(tape, c) + ['tape.' + tape['ext'], out]
     try:
-        with harness.time_limit(300):
+        with harness.time_limit(600):
             r = harness.run_tool('tap2sna', argv)
     except harness.CaseTimeout:
-        hooks.rec = None
         return {'watchdog': True, 'argv': argv}
     finally:
         hooks.rec = None
+    if r.exc and 'CaseTimeout' in r.exc:
+        # the tool runner turned the wall-clock alarm into a tool exception: it is still only a watchdog, never a verdict
+        return {'watchdog': True, 'argv': argv}
     res = {'argv': argv, 'run': r, 'ok': r.ok, 'regs': rec.get('regs'), 'ram': rec.get('ram'), 'sregs': rec.get('sregs'), 'sstate': rec.get('sstate'),
            'events': rec['events'], 'simcls': rec.get('simcls'), 'captures': rec.get('captures', 0)}
     res['file'] = harness.read_file(out) if os.path.exists(out) else None
@@ -656,9 +657,9 @@ def check_deczero(shard, hooks, tape):
             shard.violation('custom tape (%s): [%s] and [%s] end differently: %s' % (tape['desc'], describe_cfg(ref_c), describe_cfg(c), ', '.join(d[:8])),
                             replay_dict(tape, ref_c, c, d[:8]), F_DECZERO)
 
-def one_tape(shard, hooks, kind, nm, key, asan, sample=False):
+def one_tape(shard, hooks, kind, nm, key, asan, sample=False, force=None):
     rng = shard.rng('tape', *key)
-    tape = make_custom(rng, nm, shard.tier) if kind == 'custom' else make_bin2tap(rng, shard.tier)
+    tape = make_custom(rng, nm, shard.tier, force) if kind == 'custom' else make_bin2tap(rng, shard.tier)
     if 'error' in tape:
         shard.violation('tape construction failed: %s' % tape['error'], {'key': list(key)})
         return
@@ -679,7 +680,8 @@ def run(shard, spec):
                 witness(shard, hooks, n)
             # mandatory part (not subject to the soft budget): every loader shape once, shared out over the shards, and one bin2tap tape
             for nm in names[n::of]:
-                one_tape(shard, hooks, 'custom', nm, (n, 'm', nm), asan, sample=case == 0)
+                # (wildcard bytes get the working fill here, so that every accelerator is compared exactly at least once)
+                one_tape(shard, hooks, 'custom', nm, (n, 'm', nm), asan, sample=case == 0, force={'fill': 'ret'})
                 case += 1
             one_tape(shard, hooks, 'bin2tap', None, (n, 'm', 'bin2tap'), asan, sample=True)
         # random tapes until the budget is used
@@ -709,7 +711,7 @@ def finalize(agg, tier):
     if tier == 'thorough' and not sims.get('CMIOSimulator'):
         probs.append('no run used CMIOSimulator')
     exercised = len(h.get('loader_with_hits_for_own_accelerator', {}))
-    need = 30 if tier == 'quick' else 50
+    need = 45 if tier == 'quick' else 50
     if exercised < need:
         probs.append('only %d loader shapes were both loaded and shown (accelerator=list) to hit their own accelerator (< %d)' % (exercised, need))
     da = h.get('dec_a_hits(list)', {})
